@@ -3,6 +3,12 @@
 import json, sys
 pid = sys.argv[1]
 wt = sys.argv[2] if len(sys.argv) > 2 else '/tmp/wt/' + pid
+variant = sys.argv[3] if len(sys.argv) > 3 else ''
+extra = ''
+if variant == 'v2':
+    extra = (' Look beyond the most obvious function for this property: prefer the less obvious code that contributes to it '
+             '(helpers and utility packages, object pools, plugins and their containers, protocol and codec packages, error and '
+             'retry paths, configuration updates) and mechanisms a first reading would not suspect.')
 for l in open('/verif/properties.jsonl'):
     p = json.loads(l)
     if p['id'] == pid:
@@ -16,7 +22,7 @@ STATEMENT: {p['statement']}
 QUANTIFIER: {p['quantifier']['text']}
 RELEVANT FILES (anchors): {', '.join(p['anchors']['files'])}
 
-Your task: produce TWO independent, realistic source changes (call them m1 and m2) to the framework's non-test Go code, each of which BREAKS this property while the code still compiles and the existing test suite still passes. Think of the kind of regression a maintainer could plausibly introduce in a refactoring or an optimisation: e.g. dropping or reordering a step, weakening a condition, an off-by-one, a missing lock/wait, forgetting a case, reusing a buffer, mishandling an edge value. Prefer changes that need something specific to manifest — a particular interleaving, a fault at a particular point, a multi-step sequence of operations, an unusual input, or two cooperating sites that each look fine alone — NOT changes that any ordinary use (a single simple call) would expose at once. The two changes should be different in nature and touch different mechanisms.
+Your task: produce TWO independent, realistic source changes (call them m1 and m2) to the framework's non-test Go code, each of which BREAKS this property while the code still compiles and the existing test suite still passes. Think of the kind of regression a maintainer could plausibly introduce in a refactoring or an optimisation: e.g. dropping or reordering a step, weakening a condition, an off-by-one, a missing lock/wait, forgetting a case, reusing a buffer, mishandling an edge value. Prefer changes that need something specific to manifest — a particular interleaving, a fault at a particular point, a multi-step sequence of operations, an unusual input, or two cooperating sites that each look fine alone — NOT changes that any ordinary use (a single simple call) would expose at once. The two changes should be different in nature and touch different mechanisms.{extra}
 
 Facts about the environment (offline sandbox):
 - Use: export GOFLAGS=-mod=mod GOPROXY=off GOSUMDB=off GOTOOLCHAIN=local   (no network; nothing can be downloaded).
